@@ -4,7 +4,7 @@
 # (2) the demonstration fails with the change, (3) the demonstration passes without it.
 set -u
 ID=$1; NAME=${2:-$ID-agent1}
-SRC=/tmp/seed-out/$ID
+SRC=${SRC:-/tmp/seed-out/$ID}
 W=$(mktemp -d /tmp/seedconfirm.XXXXXX)
 git -C /repo worktree add -q --detach "$W/wt" HEAD || exit 2
 cd "$W/wt"
@@ -17,6 +17,10 @@ echo "== apply patch"
 git apply "$SRC/patch.diff" || { echo "PATCH DOES NOT APPLY"; git -C /repo worktree remove --force "$W/wt"; rm -rf "$W"; exit 3; }
 echo "== existing suite WITH the change"
 cargo test --offline --lib >"$W/suite.log" 2>&1; RC_SUITE=$?
+# the suite has randomly flaky statistical tests (t / pareto / exponential test_moments): a failure must reproduce to count
+for TRY in 2 3; do
+  if [ $RC_SUITE -ne 0 ]; then cargo test --offline --lib >"$W/suite.log" 2>&1; RC_SUITE=$?; fi
+done
 grep -E "^test result|FAILED" "$W/suite.log" | head -5
 echo "== demo WITH the change"
 cargo test --offline --test seed_demo >"$W/change.log" 2>&1; RC_CHANGE=$?
